@@ -49,13 +49,13 @@ CLAUSES = (
 REQUIRE = {
     **{f"eval:{c}": 200 for c in CLAUSES},
     "eval:exc-once": 40,
-    "enum_schedules:select": 1000,
-    "enum_schedules:zmq": 1000,
+    "enum_schedules:select": 500,
+    "enum_schedules:zmq": 500,
     **{f"programs:{lp}:real": 40 for lp in ("select", "zmq", "asyncio", "tornado", "twisted", "trio")},
     "programs:select:virtual": 300,
     "programs:zmq:virtual": 300,
     "callbacks_entered": 20000,
-    "virtual_blocks": 5000,
+    "virtual_blocks": 2000,
 }
 RULE = (
     "a case = one program (ops before run() + ops inside callbacks: alarm/remove_alarm/watch_file/remove_watch_file/"
@@ -376,6 +376,8 @@ def virtual_enumeration(ctx, tally, frac):
 
     idx = 0
     complete = True
+    for k in ("1_events", "2_events", "3_events", "4_events", "5_events", "6_7_events"):
+        tally.count(f"enum_skipped_for_budget:{k}", 0)
     splits_small = [(na, nf) for na in range(1, 5) for nf in range(0, 4) if na + nf <= 4]
     splits_5 = [(2, 3), (3, 2), (4, 1)]
     splits_big = [(3, 3), (4, 2), (4, 3)]
@@ -408,10 +410,11 @@ def virtual_enumeration(ctx, tally, frac):
                         idx += 1
                         if not ctx.mine(idx):
                             continue
-                        if ctx.quick and n == 4 and (idx // ctx.nshards) % 4:
+                        if ctx.quick and n == 4 and (idx // ctx.nshards) % 6:
                             continue
                         if not ctx.more(frac):
                             complete = False
+                            tally.count(f"enum_skipped_for_budget:{n}_events")
                             continue
                         one(G.build_enum(loop, na, nf, ranks, action, order, unit), loop, f"enum_action:{action[1]}")
         flush_tally(ctx, tally)
@@ -425,11 +428,12 @@ def virtual_enumeration(ctx, tally, frac):
                         continue
                     if not ctx.more(frac):
                         complete = False
+                        tally.count("enum_skipped_for_budget:6_7_events")
                         continue
                     one(G.build_enum(loop, na, nf, ranks, (None, "none", None), "rev" if idx % 2 else "reg", unit if loop == "select" else 400), loop, "enum_schedules_6_7_events")
             flush_tally(ctx, tally)
     flush_tally(ctx, tally)
-    ctx.extra["virtual_enumeration_complete_in_budget"] = complete
+    tally.count("enum_shards_complete" if complete else "enum_shards_cut_by_budget")
 
 
 def virtual_random(ctx, tally, frac, maxn):
